@@ -355,50 +355,28 @@ impl PayloadHistory {
     /// The method returns an arc'd delta so it can return the delta from the
     /// previous version which is the most likely scenario for RTR.
     pub fn delta_since(&self, serial: Serial) -> Option<Arc<PayloadDelta>> {
-        // First, handle all special cases that won’t result in us iterating
-        // over the list of deltas.
-        if let Some(delta) = self.deltas.front() {
-            if delta.serial() < serial {
-                // If they give us a future serial, we refuse to play.
-                return None
-            }
-            else if delta.serial() == serial {
-                // They already have the current version: empty delta.
-                return Some(Arc::new(PayloadDelta::empty(serial)))
-            }
-            else if delta.serial() == serial.add(1) {
-                // They are just one behind. Give them a clone of the delta.
-                return Some(delta.clone())
-            }
-        }
-        else {
+        let Some(front) = self.deltas.front() else {
             // We don’t have deltas yet, so we are on serial 0, too.
-            if serial == 0 {
-                return Some(Arc::new(PayloadDelta::empty(serial)))
-            }
-            else {
-                return None
-            }
+            return (serial == 0).then(|| {
+                Arc::new(PayloadDelta::empty(serial))
+            })
         };
-
-        // Iterate backwards over the deltas. Skip over those older than we
-        // need.
-        let mut iter = self.deltas.iter().rev();
-        for delta in &mut iter {
-            // delta.serial() is the target serial of the delta, serial is
-            // the target serial the caller has. So we can skip over anything
-            // smaller.
-            match delta.serial().partial_cmp(&serial) {
-                Some(cmp::Ordering::Greater) => return None,
-                Some(cmp::Ordering::Equal) => break,
-                _ => continue
-            }
+        if front.serial() == serial {
+            // They already have the current version: empty delta.
+            return Some(Arc::new(PayloadDelta::empty(serial)))
         }
 
-        let mut res = match iter.next() {
-            Some(delta) => delta.clone(),
-            None => return Some(Arc::new(PayloadDelta::empty(serial))),
-        };
+        // The delta leading away from `serial` has a target serial of
+        // `serial + 1`. Because the target serials of the deltas we keep
+        // are consecutive, looking for exactly that value is enough and
+        // avoids the pitfalls of serial number comparison. If there is no
+        // such delta, the serial is too old, in the future, or otherwise
+        // unknown and we refuse to play.
+        let target = serial.add(1);
+        let mut iter = self.deltas.iter().rev().skip_while(|delta| {
+            delta.serial() != target
+        });
+        let mut res = iter.next()?.clone();
         for delta in iter {
             res = Arc::new(res.merge(delta));
         }
